@@ -69,6 +69,11 @@ def piecea(prog, owner):
     return out if len(ms) == 3 and len(out) == 3 else {}
 
 
+def _sizes_const(prog, mod):
+    from .consts import const_id
+    return const_id(prog, mod, "REC_SIZE_ARY") or (mod + "::REC_SIZE_ARY")
+
+
 def _mgr_built_with(prog, mod):
     """The slot manager of the record file of module `mod` is constructed with that module's REC_SIZE_ARY."""
     from .fields import PIECEMGR
@@ -82,7 +87,7 @@ def _mgr_built_with(prog, mod):
     want = None
     for blk in c.blocks:
         for st in blk["stmts"]:
-            if st["s"] == "assign" and st["rhs"]["rv"] == "use" and st["rhs"]["a"].get("cdef") == mod + "::REC_SIZE_ARY":
+            if st["s"] == "assign" and st["rhs"]["rv"] == "use" and st["rhs"]["a"].get("cdef") == _sizes_const(prog, mod):
                 want = tuple(int(x) for x in st["rhs"]["a"]["v"].get("ints", []))
     if not want:
         return False
@@ -129,11 +134,9 @@ def _check_own(ctx):
             ok = bool(o) and all(x.kind == "param" and x.proj and x.proj[-1].endswith(want) for x in o)
         ctx.check(ok, "free-count", kind + ":own-file", "the inner %s does not ask its own %s file" % (m, kind), where=where(inner[0]))
         # iterates the file's own table
-        tab = None
-        for blk in f.blocks:
-            for st in blk["stmts"]:
-                if st["s"] == "assign" and st["rhs"]["rv"] == "use" and st["rhs"]["a"].get("cdef"):
-                    tab = st["rhs"]["a"]["cdef"]
+        from .consts import _cdefs
+        tabs = sorted({c for c, ty, v in _cdefs(f) if ty.startswith("[u32; ")})
+        tab = tabs[0] if len(tabs) == 1 else None
         # ... named directly, or through the table its own file's slot manager was built with (class-slot rules of C06
         # decide that the manager's table is the file's)
         mgr_tab = lambda os_: bool(os_) and all(x.proj and x.proj[-1].endswith(fq(prog, "MGR.sizes")) and len([p_ for p_ in x.proj if p_.endswith(fq(prog, "MGR.sizes"))]) == 1
@@ -142,7 +145,7 @@ def _check_own(ctx):
         if tab is None:
             its = [(bb, tt) for bb, tt in f.calls() if (tt.get("callee") or "").endswith(("IntoIterator::into_iter", "]>::iter", "::iter")) and not f.is_cleanup(bb)]
             via_mgr = len(its) == 1 and mgr_tab(leaf_origins(prog, f, its[0][1]["args"][0], at=its[0][0], terminal_only=True)) and _mgr_built_with(prog, mod)
-        ctx.check(tab == mod + "::REC_SIZE_ARY" or via_mgr, "free-count", kind + ":own-table", "%s iterates %s, expected its own size-class table" % (m, tab), where=where(f))
+        ctx.check(tab == _sizes_const(prog, mod) or via_mgr, "free-count", kind + ":own-table", "%s iterates %s, expected its own size-class table" % (m, tab), where=where(f))
         # the per-class body is either the body of a loop in f or a closure mapped over the table
         sites = calls_to(prog, f, target_fn=fc)
         body, elem_ok = f, None
@@ -284,7 +287,8 @@ def _check_own(ctx):
         ok = len(st) == 1
         if ok:
             o = leaf_origins(prog, st[0], {"k": "cp", "pl": {"l": 0, "p": []}}, terminal_only=True)
-            c = prog.consts.get(mod + "::DAT_HEADER_SZ")
+            from .consts import const_id
+            c = prog.consts.get(const_id(prog, mod, "DAT_HEADER_SZ") or "")
             ok = bool(o) and c is not None and all(x.kind == "const" and x.data == int(c["v"]["int"]) for x in o)
         ctx.check(ok, "slot-walk", kind + ":starts-after-header", "the %s slot walk does not start right after the header" % kind)
     # ---- (2b) the figures are the stored fields themselves, and the walk's size reader touches nothing but the size field
@@ -421,6 +425,6 @@ def check(ctx):
     # the statistics read record fields: they must read them where the layout puts them
     import_rules(ctx, "c05", {"field-position"})
     # ... and the slot walk steps by the size stored in every slot, free ones included
-    import_rules(ctx, "c06", {"free-slot-field-position", "class-slot", "push-pop-inverse"})
+    import_rules(ctx, "c06", {"free-slot-field-position", "class-slot", "push-pop-inverse", "writer-arms"})
     # a statistics call that answers Err for a legitimate structure does not report it
     import_rules(ctx, "c08", {"refusal"})
